@@ -13,10 +13,12 @@ import scipy.sparse
 def snap(o, depth=0):
     if depth > 6:
         return ("deep", repr(type(o)))
+    # the type is part of a scalar's snapshot: 3 -> 3.0 or True -> 1.0 written back into a caller's object array
+    # is a modification that value equality (3 == 3.0) does not see
     if o is None or isinstance(o, (bool, int, float, str, bytes, complex)):
-        return ("v", o if not (isinstance(o, float) and o != o) else "nan")
+        return ("v", o if not (isinstance(o, float) and o != o) else "nan", type(o).__name__)
     if isinstance(o, np.generic):
-        return ("v", o.item() if o == o else "nan")
+        return ("v", o.item() if o == o else "nan", type(o).__name__)
     if isinstance(o, np.ndarray):
         if o.dtype == object:
             return ("objarr", o.shape, tuple(snap(x, depth + 1) for x in o.ravel().tolist()))
@@ -110,7 +112,7 @@ def diff(a, b, path=""):
     if k == "set":
         return f"{path}: set changed (added {sorted(set(b[1]) - set(a[1]))[:4]}, removed {sorted(set(a[1]) - set(b[1]))[:4]})"
     if k == "v":
-        return f"{path}: {a[1]!r} -> {b[1]!r}"
+        return f"{path}: {a[1]!r} ({a[2]}) -> {b[1]!r} ({b[2]})"
     return f"{path}: changed ({k})"
 
 
